@@ -217,7 +217,7 @@ CLAIMS = {
              'univariates on the recorded multivariate_normal draws (bit-equality).',
         note='Sheppard\'s tau = (2/pi) asin rho and statistical recovery are partial (search-supported); marginal quantile pairs '
              'and norm.cdf are hypothesis structures validated each run; KDE tail +-inf is a recorded finding',
-        tech='Lean 4 proof (Mathlib measure theory for the PIT) over a plan-term model + replay of recorded RNG draws',
+        tech='Lean 4 proof (Mathlib measure theory for the PIT) over a plan-term model + the unconditional sampling path and _fit_columns regenerated from the source (Gen/GaussCond, Gen/GaussTransform; Props/C01b proves generated = model and restates the theorems; tv:GaussCond, tv:GaussTransform) + replay of recorded RNG draws',
         ref='5 C01'),
 }
 
